@@ -147,7 +147,7 @@ def strategy(ctx):
 
 
 def budget(ctx):
-    return dict(max_examples=ctx.pick(800, 10000), shards=16)
+    return dict(max_examples=ctx.pick(800, 40000), shards=16)
 
 
 def warmup():
